@@ -229,9 +229,10 @@ class SSHX11ClientForwarder(SSHForwarder):
 
             self._inpbuf = b''
         else:
+            # Keep any data which arrived after the connection setup block
             self._inpbuf = (self._prefix + self._auth_proto +
                             self._auth_proto_pad + self._auth_data +
-                            self._auth_data_pad)
+                            self._auth_data_pad + self._inpbuf)
 
         self._recv_handler = None
         self._bytes_needed = 0
